@@ -994,7 +994,10 @@ def main():
         m = {'k': 'pair', 'class': 'meridian:' + cls, 'p': p, 'q': q, 'obs': {k: v[1] for k, v in obs.items()}}
         for clause, detail in oracle_pair(p, q, obs, rng, stats) + oracle_roundtrip(p, q, obs, stats):
             violations.append(dict(m, clause=clause, detail=detail))
-        if i < n_mer_k and all(v[0] == 'Ok' for v in obs.values()):
+        # (pairs within about 1 % of half the circumference of being antipodal are ill-conditioned - the distance formula's
+        #  derivative blows up and the azimuth is undefined at the antipode: `interval` cannot decide them at the stated
+        #  tolerances, which is not a disagreement; they stay in the numeric oracle above, whose tolerances are conditioned)
+        if i < n_mer_k and all(v[0] == 'Ok' for v in obs.values()) and obs['h'][1] < 0.99 * math.pi * 6371000.0:
             addk('hdist', k_hdist(f'k_mh_{i}', p, q, obs['h'][1]), m)
             addk('bearing13', k_bearing(f'k_mb_{i}', p, q, obs['b13'][1], False), m)
             addk('dist_xyz', k_xyz(f'k_mx_{i}', p, q, obs['xyz'][1]), m)
